@@ -4,7 +4,9 @@ P="$1"; ID="$2"; T="${3:-quick}"
 cd /repo || exit 3
 if [ -n "$(git status --porcelain --untracked-files=no)" ]; then echo "repo dirty"; exit 3; fi
 git apply "$P" || { echo "patch does not apply"; exit 3; }
+cp /verif/evidence/$ID.json /verif/work/evidence.$ID.$$.bak 2>/dev/null
 cd /verif && bin/check "$ID" "$T" > /verif/work/mutant.$$.log 2>&1; rc=$?
+[ -f /verif/work/evidence.$ID.$$.bak ] && mv /verif/work/evidence.$ID.$$.bak /verif/evidence/$ID.json
 cd /repo && git checkout -- . 
 grep -E "^VIOLATION|^KNOWN|^$ID |INCONCLUSIVE|BUILD-FAILED|error=" /verif/work/mutant.$$.log | head -8
 echo "rc=$rc"
